@@ -44,6 +44,7 @@ import (
 	"sigs.k8s.io/karpenter/pkg/state/cost"
 	"sigs.k8s.io/karpenter/pkg/controllers/state/informer"
 	"sigs.k8s.io/karpenter/pkg/operator/injection"
+	"sigs.k8s.io/karpenter/pkg/scheduling"
 	"sigs.k8s.io/karpenter/pkg/state/nodepoolhealth"
 	"sigs.k8s.io/karpenter/pkg/utils/resources"
 	"sigs.k8s.io/karpenter/pkg/state/virtualpods"
@@ -76,10 +77,11 @@ type OffSpec struct {
 }
 
 type TypeSpec struct {
-	Name string    `json:"name"`
-	CPU  int       `json:"cpu"`
-	Arch string    `json:"arch"`
-	Offs []OffSpec `json:"offs"`
+	Name    string    `json:"name"`
+	CPU     int       `json:"cpu"`
+	Arch    string    `json:"arch"`
+	Offs    []OffSpec `json:"offs"`
+	MultiOS bool      `json:"multiOS"` // the instance type can boot linux or windows (requirement os In [linux, windows])
 }
 
 type Scenario struct {
@@ -119,6 +121,22 @@ type driftProvider struct {
 	*world.Provider
 	w       *world.World
 	drifted map[string]bool // by NodeClaim name
+}
+
+// Create: a well-behaved provider returns the launched NodeClaim with RESOLVED labels (cloudprovider.CloudProvider.Create):
+// besides the single-valued requirements of the chosen instance type and offering (harness provider) it resolves the
+// single-valued In requirements of the NodeClaim itself, as the repository's kwok provider does (addInstanceLabels).
+func (p *driftProvider) Create(ctx context.Context, nc *v1.NodeClaim) (*v1.NodeClaim, error) {
+	created, err := p.Provider.Create(ctx, nc)
+	if err != nil || created == nil {
+		return created, err
+	}
+	for _, r := range nc.Spec.Requirements {
+		if _, ok := created.Labels[r.Key]; !ok && r.Operator == corev1.NodeSelectorOpIn && len(r.Values) == 1 {
+			created.Labels[r.Key] = r.Values[0]
+		}
+	}
+	return created, nil
 }
 
 func (p *driftProvider) IsDrifted(ctx context.Context, nc *v1.NodeClaim) (cloudprovider.DriftReason, error) {
@@ -168,7 +186,11 @@ func (s *sim) rebuildCatalog() {
 			ts.Offerings = append(ts.Offerings, ofs)
 		}
 		if len(ts.Offerings) > 0 {
-			out = append(out, world.MakeType(ts))
+			it := world.MakeType(ts)
+			if t.MultiOS {
+				it.Requirements[corev1.LabelOSStable] = scheduling.NewRequirement(corev1.LabelOSStable, corev1.NodeSelectorOpIn, "linux", "windows")
+			}
+			out = append(out, it)
 		}
 	}
 	s.w.Prov.Types = out
@@ -185,8 +207,26 @@ func nsr(r ReqSpec) v1.NodeSelectorRequirementWithMinValues {
 	return q
 }
 
+// taintOf: "k", "k:Effect" or "k=value:Effect" (several taints may share a key and differ in effect / value)
 func taintOf(k string) corev1.Taint {
-	return corev1.Taint{Key: "example.com/" + k, Value: "x", Effect: corev1.TaintEffectNoSchedule}
+	t := corev1.Taint{Value: "x", Effect: corev1.TaintEffectNoSchedule}
+	if name, eff, ok := strings.Cut(k, ":"); ok {
+		k, t.Effect = name, corev1.TaintEffect(eff)
+	}
+	if name, val, ok := strings.Cut(k, "="); ok {
+		k, t.Value = name, val
+	}
+	t.Key = "example.com/" + k
+	return t
+}
+
+// aliasKeys: the deprecated spellings of well-known node labels (Kubernetes' own deprecation table); used here only to
+// classify requirement keys for witness signatures.
+var aliasKeys = map[string]string{
+	"beta.kubernetes.io/arch": corev1.LabelArchStable, "beta.kubernetes.io/os": corev1.LabelOSStable,
+	"beta.kubernetes.io/instance-type":         corev1.LabelInstanceTypeStable,
+	"failure-domain.beta.kubernetes.io/zone":   corev1.LabelTopologyZone,
+	"failure-domain.beta.kubernetes.io/region": corev1.LabelTopologyRegion,
 }
 
 func (s *sim) restart() {
@@ -512,6 +552,11 @@ func (s *sim) editPool(st Step) {
 			for i, j := 0, len(r)-1; i < j; i, j = i+1, j-1 {
 				r[i], r[j] = r[j], r[i]
 			}
+		case "startupTaintReorder":
+			r := t.Spec.StartupTaints
+			for i, j := 0, len(r)-1; i < j; i, j = i+1, j-1 {
+				r[i], r[j] = r[j], r[i]
+			}
 		case "startupTaint+":
 			t.Spec.StartupTaints = append(t.Spec.StartupTaints, taintOf(st.Key))
 		case "tlabel":
@@ -607,6 +652,10 @@ func (s *sim) editClaim(st Step) {
 			x.Annotations = lo.Assign(x.Annotations, map[string]string{v1.NodePoolHashAnnotationKey: st.Val})
 		case "verAnn":
 			x.Annotations = lo.Assign(x.Annotations, map[string]string{v1.NodePoolHashVersionAnnotationKey: st.Val})
+		case "copyPoolHash": // the claim's hash string equals the pool's annotation (whatever the versions are)
+			if np, ok := s.pool(); ok {
+				x.Annotations = lo.Assign(x.Annotations, map[string]string{v1.NodePoolHashAnnotationKey: np.Annotations[v1.NodePoolHashAnnotationKey]})
+			}
 		case "oldStamp": // written by a replica of the previous release
 			x.Annotations = lo.Assign(x.Annotations, map[string]string{v1.NodePoolHashAnnotationKey: "old-" + x.Annotations[v1.NodePoolHashAnnotationKey],
 				v1.NodePoolHashVersionAnnotationKey: OldVersion})
@@ -781,6 +830,8 @@ func (s *sim) obs(after string) {
 			kc := "custom"
 			if v1.WellKnownLabels.Has(k) {
 				kc = "wellknown"
+			} else if _, ok := aliasKeys[k]; ok {
+				kc = "alias"
 			}
 			cls[k] = kc + ":" + strings.Join(o, "+")
 		}
